@@ -3,14 +3,21 @@
 import json, os, sys
 V = os.path.dirname(os.path.dirname(os.path.abspath(__file__)))
 pid = sys.argv[1]
-a_p, b_p = f"{V}/evidence/{pid}.json", f"{V}/evidence/{pid}.rustls.json"
+which = sys.argv[2] if len(sys.argv) > 2 else "rustls"
+a_p, b_p = f"{V}/evidence/{pid}.json", f"{V}/evidence/{pid}.{which}.json"
 a, b = json.load(open(a_p)), json.load(open(b_p))
 ca, cb = a["coverage"], b["coverage"]
-ca["extra"] = {"backends": {ca["extra"].get("tls_backend", "native"): dict(ca["extra"], evaluations=ca["evaluations"], distinct_nontrivial=ca["distinct_nontrivial"], wall_s=a["wall_s"]),
-                             cb["extra"].get("tls_backend", "rustls"): dict(cb["extra"], evaluations=cb["evaluations"], distinct_nontrivial=cb["distinct_nontrivial"], wall_s=b["wall_s"])}}
+if which == "plain":
+    builds = ca["extra"].get("backends") or {ca["extra"].get("tls_backend", "native"): dict(ca["extra"], evaluations=ca["evaluations"], distinct_nontrivial=ca["distinct_nontrivial"], wall_s=a["wall_s"])}
+    builds["native-tls, library built without its charsets feature"] = dict(cb["extra"], evaluations=cb["evaluations"], distinct_nontrivial=cb["distinct_nontrivial"], wall_s=b["wall_s"])
+    ca["extra"] = {"backends": builds}
+    ca["rule"] += "; a third build of the same check links the library without its optional charsets feature (what default-features users run: text() and json() are then the UTF-8 variants, the text reader is replaced by the plain reader)"
+else:
+    ca["extra"] = {"backends": {ca["extra"].get("tls_backend", "native"): dict(ca["extra"], evaluations=ca["evaluations"], distinct_nontrivial=ca["distinct_nontrivial"], wall_s=a["wall_s"]),
+                                 cb["extra"].get("tls_backend", "rustls"): dict(cb["extra"], evaluations=cb["evaluations"], distinct_nontrivial=cb["distinct_nontrivial"], wall_s=b["wall_s"])}}
+    ca["rule"] += "; both TLS back ends (native-tls/OpenSSL and rustls) are exercised by two builds of the same check, distinct counts are per (plan shape or matrix cell, back end)"
 ca["evaluations"] += cb["evaluations"]
-ca["distinct_nontrivial"] += cb["distinct_nontrivial"]   # distinct = (plan shape | matrix cell) x TLS back end
-ca["rule"] += "; both TLS back ends (native-tls/OpenSSL and rustls) are exercised by two builds of the same check, distinct counts are per (plan shape or matrix cell, back end)"
+ca["distinct_nontrivial"] += cb["distinct_nontrivial"]   # distinct = (plan shape | matrix cell) x build
 ca["exhaustive"] = bool(ca.get("exhaustive")) and bool(cb.get("exhaustive"))
 ca["samples"] = (ca.get("samples") or []) + (cb.get("samples") or [])
 for k in ("kernel_events", "connections_total", "simulated_threads_total", "simulated_seconds", "schedule_decisions",
